@@ -87,7 +87,14 @@ def is_accepted_seq(seq, cfg):
     return len(seq) > 0 and all(TOKENS[x][1] == "frame" and t[x][0] == "ok" for x in seq)
 
 
+def run_data(tok, n):
+    return TOKENS[tok][2] * n + streams.seq_bytes(("Uack", "N1", "R1"))
+
+
 def replay_case(case):
+    if case.get("run"):
+        out, _, _ = judge(run_data(*case["run"]), case["base"], False)
+        return [(k + "|long_run", d[:200]) for k, d in out]
     if case.get("devs"):
         data = bytes.fromhex(case["stream"])
         devs = {int(k): v for k, v in case["devs"].items()}
@@ -130,6 +137,17 @@ def eval_block(block, acc):
                         if r.raised is None and not r.horizon and got != want:
                             acc.violation(f"filter_changes_framing|short_read|parsing={base['parsing']}", {"stream": data.hex(), "tokens": list(seq), "base": base, "devs": {str(i): 1}, "mask": mask}, f"mask={mask} got={[x[0].hex()[:16] for x in got]} want={[x[0].hex()[:16] for x in want]}")
         return
+    elif block[0] == "runs":
+        # 1,100 consecutive frames of one protocol (more than Python's recursion limit), then one frame of each
+        tok, n = block[1], block[2]
+        for base in BASES:
+            out, m, full = judge(run_data(tok, n), base, False)
+            acc.evaluations += m
+            acc.transitions += m
+            acc.outcomes[("run", tok)] += 1
+            for key, detail in out:
+                acc.violation(key + "|long_run", {"run": [tok, n], "base": base}, detail[:200])
+        return
     elif block[0] == "long":
         it = ((streams.seq_bytes(s), s) for s in streams.long_seqs(streams.LONG_NEIGHBOURS))
     else:
@@ -160,6 +178,7 @@ def run_tier(tier, t0):
     blocks += [("tokens", None, 0)] + [("tokens", f, k) for f in ALPHABET]
     blocks.append(("long",))
     blocks += [("short", f) for f in streams.FRAME_TOKENS]
+    blocks += [("runs", t, 1100) for t in ("N1", "Uack", "R1", "Nbad")]
     acc = engine.sweep(blocks, eval_block)
     engine.finish(
         PROP, tier, acc, t0, replay_case,
@@ -168,7 +187,10 @@ def run_tier(tier, t0):
             f"x 8 protocol masks x {len(BASES)} base configurations (parsing on/off, ignore/log, validate, msgmode); differential against mask 7. "
             "distinct_nontrivial = distinct sets of protocols present in the unfiltered output"
         ),
-        assumptions=["protocol of a raw item = reference classifier of its first two bytes (pynmeagps.NMEA_HDR for NMEA)"],
+        assumptions=[
+            "protocol of a raw item = reference classifier of its first two bytes (pynmeagps.NMEA_HDR for NMEA)",
+            "extra rings: boundary-length and content-refused frames between neighbour pairs; single short reads; runs of 1,100 consecutive frames of one protocol followed by one frame of each protocol",
+        ],
         vacuity=[
             ("streams with all three protocols present", (1, 2, 4) in acc.outcomes),
             ("accepted-frame sequences explored", acc.extra["accepted_frame_sequences"] > 0),
